@@ -152,10 +152,10 @@ def _run_session(path, recs, via, readback=None):
     f._stream = r
     try:
         for k, v in recs:
-            c[k.decode("ascii")] = v
+            c[k.decode("utf-8")] = v
             if readback is not None:
                 try:
-                    readback.append((k, c[k.decode("ascii")]))
+                    readback.append((k, c[k.decode("utf-8")]))
                 except Exception as e:  # noqa
                     readback.append((k, e))
     finally:
@@ -215,7 +215,7 @@ def _run_session_interrupted(path, recs, via, at):
             fu = c._backend._ukvfile
             fu._stream = _Interrupting(fu._stream, at)
             for k, v in recs:
-                c[k.decode("ascii")] = v
+                c[k.decode("utf-8")] = v
     except KeyboardInterrupt:
         pass
     finally:
@@ -291,7 +291,7 @@ def _reuse_history(path, base_img, img, rec2, via, pre, direct=False):
             v1 = {k: c[k.decode()] for k in ks1}
     with c.writing():
         for k, v in rec2:
-            c[k.decode("ascii")] = v
+            c[k.decode("utf-8")] = v
     with c.reading():
         ks2 = [k.encode() for k in c.keys()]
         v2 = {k: c[k.decode()] for k in ks2}
@@ -312,6 +312,13 @@ def check(recipe) -> list[Fail]:
     base = _recs(recipe["base"], 0)
     sess = _recs(recipe["session"], len(base))
     recov = _recs(recipe["recovery"], len(base) + len(sess))
+    if recipe.get("utf8_keys"):
+        # record names with multi-byte UTF-8 characters (Greek letters, accents): a torn key may end INSIDE a character
+        pre_ = "\u03b1\u03b2\u00e9".encode("utf-8")
+        fit_ = lambda b_: b_[:255].decode("utf-8", "ignore").encode("utf-8")      # noqa: E731 (never cut inside a character ourselves)
+        base = [(fit_(pre_ + k) if k else k, v) for k, v in base]
+        sess = [(fit_(pre_ + k[:240] + "\u03c9".encode("utf-8")) if k else k, v) for k, v in sess]
+        recov = [(fit_(pre_ + k) if k else k, v) for k, v in recov]
     if recipe.get("zero_vals"):
         # values that consist of zero bytes (padding, empty arrays): whatever is left of one on disk looks like empty records
         sess = [(k, b"\0" * len(v)) for k, v in sess]
@@ -545,7 +552,7 @@ def strat(tier):
             "recovery": st.lists(small_pair, min_size=0, max_size=2),
             "reuse_torn_key": st.booleans(),
             "second_crash_every": st.sampled_from([0, 0, 17] if not big else [0, 5, 1]),
-            "empty_key": st.one_of(st.none(), st.none(), st.integers(0, 6)), "reuse": st.booleans(), "interrupt": st.booleans(), "zero_vals": st.sampled_from([False, False, True]),
+            "empty_key": st.one_of(st.none(), st.none(), st.integers(0, 6)), "reuse": st.booleans(), "interrupt": st.booleans(), "zero_vals": st.sampled_from([False, False, True]), "utf8_keys": st.sampled_from([False, False, True]),
         }
     )
 
